@@ -14,9 +14,20 @@ From one widget-tree spec (vlib.gen_widgets) two identical but separate trees ar
            so A's entries, dependency lists and weakref clean-ups are left untouched
            (``CanvasCache.clear()`` would also drop A's entries).
 
+Besides the widgets of vlib.gen_widgets the trees contain probe widgets (this module): multi-row flow / box
+leaves without a cursor, optionally selectable, whose rendering is cached, declared ``no_cache = ["render"]``
+or returns a canvas with ``cacheable = False`` (as urwid.Terminal), changed through the public mutator
+``set_value()`` (calls ``_invalidate()``); an uncached transparent decoration; ListBoxes of 2..8 such items and
+Buttons with wrapping labels, bare or under a cached box parent (a quarter of the box-mode roots).  They come
+in as roots, through case["plant"] (a node replaced via its parent's public API before the first rendering)
+and through the child-replacing mutators.
+
 Every op (render/rows of any node at one of 2-3 recurring sizes and either focus, keypress,
 mouse_event, a public mutator of a node addressed by its index in walk order of the *live* tree or
-of the node mutated last ("again"), drop+gc) is applied to A and then to B.  After every op the root is rendered in both worlds at the
+of the node mutated last ("again") or of the j-th ListBox / j-th probe of the tree ("lb", "probe"), drop+gc) is
+applied to A and then to B.  ListBox nodes also take the size-aware public methods change_focus / shift_focus /
+make_cursor_visible (any documented offset, also for the position that already has the focus), scrolling keys
+and wheel events directly, with the size their latest render() call was given in the always-fresh world.  After every op the root is rendered in both worlds at the
 current view (size, focus) and compared:
 
   content-differs   same cols/rows and the same rows of (attr, charset, bytes) runs (adjacent runs with
@@ -70,7 +81,10 @@ PROPERTY = "C06"
 LEVEL = "exploration"
 RULE = (
     "Hypothesis cases {encoding (utf-8 x4, euc-jp, iso8859-1), root sizing mode box/flow/fixed, widget-tree "
-    "spec of depth 1..3 (4 thorough) from vlib.gen_widgets (all leaves, decorations and containers of C01), "
+    "spec of depth 1..3 (4 thorough) from vlib.gen_widgets (all leaves, decorations and containers of C01) or, for a "
+    "quarter of the box roots, a ListBox of 2..8 items (flow leaves, multi-row cursor-less probes with cached / "
+    "no_cache / uncacheable-canvas rendering, Buttons with wrapping labels) bare, under a cached box parent or under "
+    "an uncached decoration; 0-2 planted replacements (probes, such list boxes) before the first rendering, "
     "2-3 recurring sizes (1..24 x 1..10), canvas holding policy all-until-drop / latest-root-rendering-only (as a "
     "Screen), op list (<=25 ops quick, <=60 thorough)} interpreted on a twin pair "
     "(A cached / B with CanvasCache.fetch+store patched out). Ops: view(size index, focus); render / rows of "
@@ -82,8 +96,9 @@ RULE = (
     "set_attr_map/set_focus_map, AttrWrap set_attr/set_focus_attr, LineBox.set_title, Padding align=/width=, "
     "original_widget= on every decoration, Pile/Columns/GridFlow contents insert/delete/assign/options + "
     "focus_position=, GridFlow.cell_width=, Frame header/body/footer=/focus_position=, Overlay contents[0]/[1]= "
-    "and set_overlay_parameters, ListBox set_focus/set_focus_valign/focus_position= and walker insert/delete/"
-    "replace, Scrollable.set_scrollpos, ScrollBar side/width; drop all held canvases + gc.collect(1). ~20% of "
+    "and set_overlay_parameters, ListBox set_focus/set_focus_valign/focus_position=, walker insert/delete/"
+    "replace, change_focus/shift_focus/make_cursor_visible/scroll keys/wheel at the size it was last rendered with "
+    "(ops 'lb'/'probe' address the j-th ListBox / probe), probe set_value, Scrollable.set_scrollpos, ScrollBar side/width; drop all held canvases + gc.collect(1). ~20% of "
     "the ops are not followed by the comparison render; 1 in 7 list elements is a correlated pattern (change "
     "without redraw / other view / change again; view A, view B, change, view A; three changes of one widget). "
     "Oracle after every op: root rendering of A == B (content runs, cursor), rows equal, confirmed on the same "
